@@ -193,7 +193,7 @@ func main() {
 		}
 	}
 	if budget == 0 {
-		budget = 120 * time.Second
+		budget = 240 * time.Second
 		if tier == "thorough" {
 			budget = 12 * time.Minute
 		}
